@@ -66,7 +66,7 @@ func runChunk(ctx context.Context, opt chunkOptions, args []string) error {
 	for {
 		select {
 		case <-ctx.Done():
-			return nil
+			return desync.Interrupted{}
 		default:
 		}
 		start, b, err := c.Next()
